@@ -125,9 +125,33 @@ def large_threshold(sess, suite, t, ks):
     sess.count("large-threshold")
 
 
+def stored_threshold(sess, suite):
+    """the threshold a key holder enforces is the one recorded in its key package: a stored key package whose
+    min_signers member is missing must not load (it would otherwise load with a default threshold and sign alone)"""
+    import json
+    r, shares, pkp = dealer(sess, suite, 3, 2)
+    if not r.ok:
+        return
+    kp = list(keypkgs(sess, suite, shares).values())[0]
+    j = sess.call("json_ser %s t=keypackage v=%s" % (suite, kp), NONE, "json_ser", model=False)
+    if not j.ok:
+        return
+    o = json.loads(bytes.fromhex(j["j"]).decode())
+    for member in ("min_signers",):
+        if member in o:
+            del o[member]
+            req = "json_de %s t=keypackage j=%s" % (suite, json.dumps(o, separators=(",", ":")).encode().hex())
+            d = sess.call(req, NONE, "json_de-no-threshold", model=False)
+            sess.oracle(not d.ok, "a stored key package WITHOUT its threshold was loaded (%s): the holder would sign below the threshold" % d.raw[:70], [req])
+            sess.case("stored-threshold|" + req)
+            sess.count("stored key package without threshold")
+
+
 def generate(sess):
     rng = sess.rng
     thorough = sess.tier != "quick"
+    for suite_ in REAL_SUITES:
+        stored_threshold(sess, suite_)
     large_threshold(sess, "toy31", 256, [1, 2, 255])
     large_threshold(sess, "toy31", 300, [1, 43, 44, 45, 299])
     for suite in TOY_SUITES:
